@@ -11,6 +11,7 @@ CONSTANTS
   Vias = {"ci"}
   MapKinds = {"none"}
   URs = {FALSE, TRUE}
+  NoAutos = {FALSE}
   Faults = {0}
   DelFaults = {0}
   MaxOps = 3
